@@ -229,7 +229,7 @@ func (c *Ctx) RunC03(tier string) {
 		{"djn", "f", ">", "{"}, {"dat", "", "#", "#"}, {"spl", "", "@", "-"}, {"slt", "", "", "}"}}
 	templates88 := []tmpl{{"mov", "", "", ""}, {"mov", "", "#", "@"}, {"add", "", "#", ""}, {"jmp", "", "", "-"}, {"jmz", "", "", "<"}, {"djn", "", "@", ""},
 		{"dat", "", "#", "#"}, {"spl", "", "@", "-"}, {"slt", "", "#", "$"}, {"cmp", "", "", "@"}}
-	operands := []string{"0", "1", "-1", "7", "CORESIZE", "CORESIZE+1", "a", "b", "c", "x", "y", "a+1", "c-1", "b-a", "c-a", "2*x", "x+y", "-y", "MAXLENGTH", "MAXPROCESSES", "MINDISTANCE", "b*2-c"}
+	operands := []string{"0", "1", "-1", "7", "CORESIZE", "CORESIZE+1", "a", "b", "c", "x", "y", "a+1", "c-1", "b-a", "c-a", "2*x", "x+y", "-y", "MAXLENGTH", "MAXPROCESSES", "MINDISTANCE", "b*2-c", "a/2", "c%2", "(a-c)/2", "7/b"}
 	equSets := [][]ref.AEqu{
 		{{Name: "x", Body: toks("3")}, {Name: "y", Body: toks("x+1")}},
 		{{Name: "x", Body: toks("c+1")}, {Name: "y", Body: toks("2")}},
@@ -304,7 +304,7 @@ func (c *Ctx) RunC03(tier string) {
 			}
 		}
 	}
-	rep.Bound += "; three-instruction skeletons (labels a,b,c; 2 EQUs from several definition sets incl. label-valued, constant-valued and chained): each slot in turn takes every instruction template (10 per dialect) x every pair from a 22-expression symbolic operand alphabet, entry point by nothing / ORG / END; M in {8000,7}; both dialects"
+	rep.Bound += "; three-instruction skeletons (labels a,b,c; 2 EQUs from several definition sets incl. label-valued, constant-valued and chained): each slot in turn takes every instruction template (10 per dialect) x every pair from a 26-expression symbolic operand alphabet, entry point by nothing / ORG / END; M in {8000,7}; both dialects"
 
 	// P2b (thorough): two slots at a time over a reduced operand alphabet.
 	if thorough {
